@@ -247,7 +247,7 @@ def trace_param_formulas(wntr):
     out = {}
     ln = "L"
     link = _FakeLink(roughness=SymF.leaf("roughness", 100.0), diameter=SymF.leaf("diameter", 0.3), length=SymF.leaf("length", 200.0),
-                     minor_loss=SymF.leaf("K", 2.0), setting=SymF.leaf("K", 3.0))
+                     minor_loss=SymF.leaf("minor_loss", 2.0), setting=SymF.leaf("setting", 3.0))
     wn = _FakeWn({ln: link})
     param.hw_resistance_param.build(m, wn, _NoUpdater())
     param.minor_loss_param.build(m, wn, _NoUpdater())
@@ -494,7 +494,8 @@ def gen_c02(wntr):
         info[approx] = hist
     # parameter formulas
     pf = trace_param_formulas(wntr)
-    order = {"hw_resistance": ["roughness", "diameter", "length"], "minor_loss": ["K", "diameter"], "tcv_resistance": ["K", "diameter"]}
+    # which link attribute each formula may read (leaf 0 is K: the minor-loss coefficient, resp. the TCV setting)
+    order = {"hw_resistance": ["roughness", "diameter", "length"], "minor_loss": ["minor_loss", "diameter"], "tcv_resistance": ["setting", "diameter"]}
     for nm, t in pf.items():
         idx = {("param", n): i for i, n in enumerate(order[nm])}
         for tag, leaf in amldump.leaves(t):
